@@ -458,14 +458,22 @@ def sound_attr_subpackets(a0: bytes, a1: bytes, b0: bytes, b1: bytes) -> bool:
     return (not ok) or (bytes(a0) == bytes(b0) and bytes(a1) == bytes(b1))
 
 
-RSAKEY = PGPKey.new(PubKeyAlgorithm.RSAEncryptOrSign, 2048, created=T0)
-RSAKEY.add_uid(PGPUID.new('r'), usage={KeyFlags.Sign, KeyFlags.Certify}, hashes=[HashAlgorithm.SHA256], created=T0)
-RSASIG = RSAKEY.sign(b'doc', created=T0)
+_RSA = []
+
+
+def _rsa_fixture():
+    """a real RSA-2048 key and its signature over b'doc' (made on first use: other obligations of this module run with the symbolic MPI twin installed)"""
+    if not _RSA:
+        k = PGPKey.new(PubKeyAlgorithm.RSAEncryptOrSign, 2048, created=T0)
+        k.add_uid(PGPUID.new('r'), usage={KeyFlags.Sign, KeyFlags.Certify}, hashes=[HashAlgorithm.SHA256], created=T0)
+        _RSA.extend([k, k.sign(b'doc', created=T0)])
+    return _RSA
 
 
 def _rsa_mutant(mi, again):
     """the genuine RSA signature over b'doc' with its integer replaced by mutant mi, re-parsed from octets, verified with the real RSA primitive"""
     from pgpy.packet.types import MPI
+    RSAKEY, RSASIG = _rsa_fixture()
     s_ = int(RSASIG._signature.signature.md_mod_n)
     n = int(RSAKEY._key.keymaterial.n)
     klen = (n.bit_length() + 7) // 8
